@@ -201,3 +201,164 @@ pub fn gen_c03(rng: &mut Rng, d: &mut Dist) -> Vec<String> {
     }
     out
 }
+
+fn name_of_len(rng: &mut Rng, n: usize) -> String {
+    let alphabet = b"abcdefghijklmnopqrstuvwxyz0123456789";
+    let mut v = Vec::with_capacity(n);
+    for _ in 0..n {
+        v.push(*rng.pick(alphabet));
+    }
+    String::from_utf8(v).unwrap()
+}
+
+fn extreme_i64(rng: &mut Rng) -> i64 {
+    *rng.pick(&[0i64, 1, -1, 2, 7, 1000, i64::MAX, i64::MIN, i32::MAX as i64, i32::MIN as i64, 1 << 40, -(1 << 40)])
+}
+
+fn extreme_i32(rng: &mut Rng) -> i64 {
+    *rng.pick(&[0i64, 1, -1, 2, 4096, 32768, i32::MAX as i64, i32::MIN as i64, 1 << 20])
+}
+
+/// C09: every public client operation with generated arguments: names of length 0/1/32767/32768/40000 (rare),
+/// i32/i64 extremes, empty lists, many topics x partitions, every client setting.
+pub fn gen_c09(rng: &mut Rng, d: &mut Dist) -> Vec<String> {
+    let maxp = *rng.pick(&[1u64, 2, 4, 4, 40]);
+    let cl = Cluster::random(rng, maxp, true);
+    let mut out = cl.setup_lines();
+    // a few more topics sometimes
+    let extra = if rng.chance(1, 4) { 1 + rng.below(30) } else { 0 };
+    let mut names: Vec<(String, usize)> = cl.topics.iter().map(|t| (t.name.clone(), t.leaders.len())).collect();
+    for i in 0..extra {
+        let n = format!("x{}", i);
+        let np = 1 + rng.below(3) as usize;
+        out.push(format!("TOPIC {} {}", h(&n), np));
+        for p in 0..np {
+            out.push(format!("LEADER {} {} {}", h(&n), p, 1 + rng.below(cl.brokers.len() as u64)));
+        }
+        names.push((n, np));
+    }
+    out.push(format!("OP client_new {}", cl.bootstrap()));
+    // settings
+    if rng.chance(2, 3) {
+        let l = *rng.pick(&[0usize, 1, 5, 5, 5, 32767, 32768]);
+        bump(d, &format!("client-id-len-{}", l));
+        out.push(format!("OP c set client_id {}", h(&name_of_len(rng, l))));
+    }
+    if rng.chance(1, 2) {
+        out.push(format!("OP c set fetch_max_wait {} {}", rng.below(5), rng.below(1_000_000_000)));
+    }
+    if rng.chance(1, 2) {
+        out.push(format!("OP c set fetch_min_bytes {}", extreme_i32(rng)));
+    }
+    if rng.chance(1, 2) {
+        out.push(format!("OP c set fetch_max_bytes {}", *rng.pick(&[1i64, 100, 32768, i32::MAX as i64, 0, -5])));
+    }
+    let storage = *rng.pick(&["zk", "kafka", "kafka", "none"]);
+    out.push(format!("OP c set storage {}", storage));
+    out.push("OP c set retry_backoff_ms 0".into());
+    out.push("OP c set retry_max 2".into());
+    out.push("OP c load_metadata_all".into());
+    let nops = 2 + rng.below(8);
+    for _ in 0..nops {
+        let mut pick_topic = |rng: &mut Rng, d: &mut Dist| -> String {
+            match rng.below(40) {
+                0 => {
+                    bump(d, "name-unknown");
+                    "unknown".to_string()
+                }
+                1 => {
+                    bump(d, "name-empty");
+                    String::new()
+                }
+                2 => {
+                    bump(d, "name-32768");
+                    name_of_len(rng, 32768)
+                }
+                3 => {
+                    bump(d, "name-32767");
+                    name_of_len(rng, 32767)
+                }
+                4 => {
+                    bump(d, "name-40000");
+                    name_of_len(rng, 40000)
+                }
+                _ => rng.pick(&names).0.clone(),
+            }
+        };
+        match rng.below(9) {
+            0 => {
+                bump(d, "op-load_metadata");
+                let n = rng.below(4);
+                let ts: Vec<String> = (0..n).map(|_| h(&pick_topic(rng, d))).collect();
+                out.push(format!("OP c load_metadata {}", ts.join(" ")));
+                out.push("OP c load_metadata_all".into());
+            }
+            1 => {
+                bump(d, "op-fetch_offsets");
+                let n = rng.below(4);
+                let ts: Vec<String> = (0..n).map(|_| h(&pick_topic(rng, d))).collect();
+                out.push(format!("OP c fetch_offsets {} {}", extreme_i64(rng), ts.join(" ")));
+            }
+            2 => {
+                bump(d, "op-list_offsets");
+                let n = rng.below(4);
+                let ts: Vec<String> = (0..n).map(|_| h(&pick_topic(rng, d))).collect();
+                out.push(format!("OP c list_offsets {} {}", extreme_i64(rng), ts.join(" ")));
+            }
+            3 | 4 => {
+                bump(d, "op-fetch_messages");
+                let n = rng.below(if maxp > 4 { 60 } else { 6 });
+                let mut line = String::from("OP c fetch_messages");
+                for _ in 0..n {
+                    let t = pick_topic(rng, d);
+                    let np = names.iter().find(|x| x.0 == t).map(|x| x.1).unwrap_or(1) as i64;
+                    let p = if rng.chance(1, 10) { *rng.pick(&[-1i64, np, np + 5, i32::MAX as i64, i32::MIN as i64]) } else { rng.range(0, np - 1) };
+                    line.push_str(&format!(" {} {} {} {}", h(&t), p, extreme_i64(rng), extreme_i32(rng)));
+                }
+                out.push(line);
+            }
+            5 => {
+                bump(d, "op-produce");
+                let n = 1 + rng.below(5);
+                let acks = *rng.pick(&[0i64, 1, -1]);
+                let mut line = format!("OP c produce {} {} {}", acks, rng.below(2_000_000), rng.below(1_000_000_000));
+                for _ in 0..n {
+                    let t = pick_topic(rng, d);
+                    let np = names.iter().find(|x| x.0 == t).map(|x| x.1).unwrap_or(1) as i64;
+                    let k = payload(rng, d);
+                    let v = payload(rng, d);
+                    line.push_str(&format!(" {} {} {} {}", h(&t), rng.range(0, np - 1), opt_tok(&k), opt_tok(&v)));
+                }
+                out.push(line);
+            }
+            6 => {
+                bump(d, "op-commit_offsets");
+                let n = rng.below(5);
+                let g = if rng.chance(1, 20) { name_of_len(rng, 32768) } else { "grp".to_string() };
+                let mut line = format!("OP c commit_offsets {}", h(&g));
+                for _ in 0..n {
+                    let t = pick_topic(rng, d);
+                    let np = names.iter().find(|x| x.0 == t).map(|x| x.1).unwrap_or(1) as i64;
+                    line.push_str(&format!(" {} {} {}", h(&t), rng.range(0, np - 1), extreme_i64(rng)));
+                }
+                out.push(line);
+            }
+            7 => {
+                bump(d, "op-fetch_group_offsets");
+                let n = rng.below(5);
+                let mut line = format!("OP c fetch_group_offsets {}", h("grp"));
+                for _ in 0..n {
+                    let t = pick_topic(rng, d);
+                    let np = names.iter().find(|x| x.0 == t).map(|x| x.1).unwrap_or(1) as i64;
+                    line.push_str(&format!(" {} {}", h(&t), rng.range(0, np - 1)));
+                }
+                out.push(line);
+            }
+            _ => {
+                bump(d, "op-fetch_group_topic_offset");
+                out.push(format!("OP c fetch_group_topic_offset {} {}", h("grp"), h(&pick_topic(rng, d))));
+            }
+        }
+    }
+    out
+}
